@@ -154,6 +154,20 @@ func c17Check(o *Oracle, c spellCase) (ok bool, kind, detail, resp string) {
 	return true, "", "", resp
 }
 
+// two spellings disagree because one of the two runs is wrong; if that run's mismatch is
+// attributed to a known call site the C17 failure inherits the site signature
+func c17Sig(o *Oracle, c spellCase) string {
+	t, _ := respell(c)
+	for _, bc := range []boolCase{c.boolCase, t} {
+		if ok, _, resp := c01Check(o, bc); !ok {
+			if s := siteOf(func() { runBool(bc) }, resp, "splitDiscard"); s != "" {
+				return s
+			}
+		}
+	}
+	return sigOf(c)
+}
+
 var transforms = []string{"permute", "rotate-start", "repeat-vertex", "closing-vertex", "reverse-evenodd", "reverse-all", "swap", "mirror-x", "mirror-y", "rot90"}
 
 func init() {
@@ -191,7 +205,7 @@ func init() {
 					c.Clip = sh[1]
 				}
 				_, _, detail, _ = c17Check(o, c)
-				col.Violate(Violation{Property: "C17", Kind: kind, Signature: sigOf(c), Detail: detail, Case: c, Stream: "c17", Index: i, Seed: ctx.Seed})
+				col.Violate(Violation{Property: "C17", Kind: kind, Signature: c17Sig(o, c), Detail: detail, Case: c, Stream: "c17", Index: i, Seed: ctx.Seed})
 			}
 		})
 		return col.Finish()
@@ -202,7 +216,7 @@ func init() {
 			fatal("replay case: %v", err)
 		}
 		if ok, kind, detail, _ := c17Check(o, c); !ok {
-			return &Violation{Property: "C17", Kind: kind, Signature: sigOf(c), Detail: detail, Case: c}
+			return &Violation{Property: "C17", Kind: kind, Signature: c17Sig(o, c), Detail: detail, Case: c}
 		}
 		return nil
 	}
